@@ -28,6 +28,13 @@ def run(ctx):
     model = RelModel(syn)
     L = 4 if ctx.tier == "quick" else 6
     limits = (None, 0, 1, 2) if ctx.tier == "quick" else (None, 0, 1, 2, 3)
+    # constants of the crate that are larger than the position domain (WHITESPACE_LIMIT = 10) could never
+    # bind on texts of length L: they are scaled down, consistently in the search code and in the relation,
+    # so that a bound applied on one side only becomes visible (parametric abstraction; stated in the evidence)
+    scaled = dict((k, 1) for k, v in model.consts.items() if isinstance(v, int) and not isinstance(v, bool) and v >= L)
+    model.consts.update(scaled)
+    if scaled:
+        ctx.assumptions.append("crate constants %s exceed the text domain and are evaluated as 1 in both the candidate search and the relation" % sorted(scaled))
     ctx.extra["exhaustive"] = True
     ctx.extra["domain"] = "texts of length %d; every reference selection (quick) / every reference set of up to two selections (thorough); every candidate selection; every operator value with limits %s; whitespace predicate both ways" % (L, list(limits))
     ctx.extra["trusted_base"] = ["syn AST dump", "lib/formula.py evaluator", "lib/relmodel.py (the relation itself is the extracted one, proved against its definitions by C13)",
@@ -230,6 +237,35 @@ def run(ctx):
             c = unparse(n["cond"])
             if any(re.search(r"self\.%s\.(insert|contains)\(" % sf, c) for sf in setfields):
                 dedup = True
+    # every value next() hands out passed the insertion into the seen-set on its way out: the gate must be
+    # `if self.<set>.insert(v) { return Some(v) }`, not a membership test made when the value was buffered
+    if per_ref:
+        def gated(node, gates):
+            k = node.get("k")
+            if k == "if":
+                c = node["cond"]
+                g = None
+                if c.get("k") != "letexpr":
+                    m_ = re.fullmatch(r"self\.(\w+)\.insert\((\w+)\)", unparse(c, strip_ref=True))
+                    if m_ and m_.group(1) in setfields:
+                        g = m_.group(2)
+                gated(node["then"], gates + ([g] if g else []))
+                if node.get("else") is not None:
+                    gated(node["else"], gates)
+                return
+            if k == "return" and node.get("e") is not None:
+                src_ = unparse(strip(node["e"]))
+                if src_ == "None":
+                    return
+                r_once.hit("return:" + src_[:30])
+                m_ = re.fullmatch(r"Some\((\w+)\)", src_)
+                if not (m_ and m_.group(1) in gates):
+                    ctx.report(r_once, "ungated-return:" + re.sub(r"\W+", "_", src_)[:40], "FindTextSelectionsIter::next returns `%s` on a path that does not pass `if self.<seen-set>.insert(..)` for that value: a selection reachable through two candidate iterators is returned twice" % src_, outer.file, node.get("l"))
+                return
+            for ch in children(node):
+                gated(ch, gates)
+        from synq import children
+        gated(outer.body, [])
     for p in per_ref:
         r_once.hit(p)
     if per_ref and not dedup:
